@@ -30,6 +30,7 @@ P_FIELDS = (
     Field("mp", 5, "msg:Sub", "map", key="string"), Field("r", 6, "msg:Sub", "repeated"),
     Field("t", 7, "timestamp"), Field("ri", 8, "int32", "repeated"),
     Field("w", 9, "wrap:int32"), Field("e", 10, "enum:Color"),
+    Field("em", 11, "msg:Empty"),   # a sub-message type without fields
 )
 SCHEMA = Schema("vfc14", (COLOR,), LIB_MSGS + (Msg("M", M_FIELDS), Msg("P", P_FIELDS)))
 
@@ -47,12 +48,14 @@ INIT_VALUES: List[Dict[str, Any]] = [
     {"m": {"v": 1}, "mp": {"k": {"a": 2}}, "r": [{"a": 3}], "oi": 7, "e": 7},
     {"m": {"c": {"a": 1}}},
     {"m": {"c": {"s": "x"}}, "ri": [3]},
+    {"em": {}},
+    {"em": {}, "o": 1},
 ]
 UNKNOWN_A = wire.make_rec(99, wire.VARINT, 5).raw
 UNKNOWN_B = wire.make_rec(100, wire.LEN, b"zz").raw
 OBSERVERS = [
     "read:m", "read:m.c", "read:m.c.a", "read:m.v", "read:o", "read:oi", "read:os", "read:mp",
-    "read:r", "read:t", "read:ri", "read:w", "read:e",
+    "read:r", "read:t", "read:ri", "read:w", "read:e", "read:em",
     "bytes", "len", "eq", "eq-other-oneof", "bool", "repr", "to_dict", "to_dict_snake", "to_dict_defaults",
     "to_json", "to_pydict", "to_pydict_defaults", "is_set", "which_one_of",
 ]
@@ -178,6 +181,7 @@ class ObsSpace(Space):
             "value": json.dumps(av.canon(proj), sort_keys=True),
             "sow_m": betterproto.serialized_on_wire(obj.m),
             "sow_m_c": betterproto.serialized_on_wire(obj.m.c),
+            "sow_em": betterproto.serialized_on_wire(obj.em),
             "oneof": betterproto.which_one_of(obj, "g")[0],
             "o_set": obj.o is not None,
             "map_types": sorted(type(v).__name__ for v in obj.mp.values()),
